@@ -41,18 +41,23 @@ CHECKS = {
         technique="Coq proof over R on a model translated from the source on every run (field/nra/interval/Coquelicot) + interval enclosures",
         design="5/C09"),
     "C08": dict(
-        text=("coq/gen/em.v is REGENERATED from typhon/physics/em.py on every run by the fail-closed translator; 20 theorems over the "
-              "reals are re-checked against it, for ALL positive f and T (not only the sampled range): radiance2planckTb inverts planck, "
-              "radiance2rayleighjeansTb inverts rayleighjeans, planck > 0, strictly increasing in T, planck < rayleighjeans and "
-              "(1 - x) rayleighjeans < planck for x = hf/kT < 1 (the approach to Rayleigh-Jeans), wavelength/wavenumber forms equal "
-              "planck f^2/c resp. c planck, the six unit converters are mutually inverse and commute, the four spectral-density "
-              "converters (hand model on lists of any length, tied element-wise) are inverse to each other and map one Planck form "
-              "onto the other, Snell's law up to total reflection, the complex-n2 branch satisfies Liou's form of the law (tan t2 = sin t1 / Re sqrt(N^2 - sin^2 t1)) for every n2 with positive real part and reduces to the real law when Im(n2) = 0, and for real refractive indices |Rv|,|Rh| <= 1, |Rv| = |Rh| at "
-              "normal incidence, Rv = 0 at the Brewster angle. Complex n2: the Snell branch is translated and enclosed, the "
-              "Fresnel bound is only swept numerically (named gap). Floats are tied by interval enclosures proved in Coq."),
-        note=COMMON_NOTE + " Translator trusted for the whitelisted subset (mitigated by enclosures); the reshape/[::-1]/broadcast plumbing of "
-             "the per*2per* converters is hand-modelled; real-number axioms, classic, funext (Coquelicot) in Print Assumptions.",
-        technique="Coq proof over R on a model translated from the source on every run (field/lra/exp_ineq1/trig lemmas) + interval enclosures",
+        text=("coq/gen/em.v is REGENERATED from typhon/physics/em.py on every run by the fail-closed translator (complex arithmetic "
+              "translated on pairs of reals); 28 theorems over the reals are re-checked against it, for ALL positive f and T: "
+              "radiance2planckTb inverts planck, radiance2rayleighjeansTb inverts rayleighjeans, planck > 0, strictly increasing in T, "
+              "planck < rayleighjeans, planck/rayleighjeans = x/(e^x - 1) and it tends to 1 as x = hf/kT -> 0 as an epsilon-delta "
+              "statement; wavelength / wavenumber forms equal planck f^2/c resp. c planck; the six unit converters are mutually "
+              "inverse and commute; the four spectral-density converters (hand model on lists of any length, tied element-wise) are "
+              "inverse to each other and map one Planck form onto the other; Snell's law for real n2 up to total reflection, Liou's "
+              "form of the law for every complex n2 with positive real part, the complex branch reducing to the real law when "
+              "Im(n2) = 0; Fresnel: |Rv|, |Rh| <= 1 for real n2 and - on the translated complex arithmetic of fresnel() (real "
+              "refraction angle as the code computes it) - for every complex n2 with positive real part and every incidence below "
+              "90 degrees, strictly below 1 for an absorbing medium, with non-zero denominators; |Rv| = |Rh| at normal incidence for "
+              "real and complex n2, Rv = 0 at the Brewster angle, the complex evaluation reducing to the real one when Im n2 = 0. "
+              "No theorem is partial. Floats are tied by interval enclosures proved in Coq (incl. Re/Im of the complex coefficients) "
+              "and a law sweep on the implementation (multi-dimensional spectra, complex-typed indices, an independent cmath oracle)."),
+        note=COMMON_NOTE + " Translator trusted for the whitelisted subset (mitigated by enclosures); numpy's complex division and IEEE rounding bridged pointwise; the reshape/[::-1]/broadcast plumbing of "
+             "the per*2per* converters is hand-modelled; theta1 = 90 is excluded from the Fresnel bounds; complex n1 is rejected by the code and not modelled; real-number axioms, classic, funext (Coquelicot) in Print Assumptions.",
+        technique="Coq proof over R on a model translated from the source on every run (field/lra/exp_ineq1/trig lemmas, complex numbers as pairs of reals) + interval enclosures + numeric law sweep",
         design="5/C08"),
     "C02": dict(
         text=("Theorems (closed under the global context) about an executable model of FileSet.get_filename / the regex of "
@@ -146,15 +151,21 @@ CHECKS = {
         design="5/C15"),
     "C19": dict(
         text=("coq/gen/scores.v (element-wise kernels of mape, bias, quantile_score) is REGENERATED from typhon/retrieval/scores.py on "
-              "every run; theorems over the reals re-checked against it: quantile_score is the pinball loss (tau|d| below, "
-              "(1-tau)|d| above), non-negative, zero iff equal; quantile_minimises - for ANY finite sample, tau in (0,1) and "
-              "constant c a tau-quantile has mean loss <= that of c (induction over the sample); shape contract accepted / "
-              "rejected; mape and bias are 0 for perfect predictions, |p| resp. p for a uniform p % offset, permutation and scale "
-              "invariant. Tie: translation + interval enclosures proved in Coq around the implementation's floats on small "
-              "samples, the shape model against the real accept/reject behaviour, and a numeric law sweep with exhaustive "
-              "search over sample points as candidate constants."),
-        note=COMMON_NOTE + " Translator trusted for the whitelisted subset (mitigated by enclosures); reshape/ravel/broadcast plumbing hand-modelled; real-number axioms, classic, funext in Print Assumptions.",
-        technique="Coq proof over R on kernels translated from the source on every run (lra/nra, induction over samples) + interval enclosures",
+              "every run; 23 theorems re-checked against it: quantile_score is the pinball loss (tau|d| below, (1-tau)|d| above), "
+              "non-negative, zero iff equal; for EVERY finite non-empty sample and tau in (0,1) a constant minimises the mean loss "
+              "over all constants IF AND ONLY IF it is a tau-quantile (quantile_minimises, minimiser_is_quantile - also from "
+              "minimality among the sample points only or among c +- delta only; exact slope of the loss between sample values; the "
+              "minimum is attained at a sample point, so the exhaustive search over sample points is exact); for a k-vector of "
+              "fractions the (n,k) score matrix is column-wise the pinball loss on a list-of-rows model including the flat reshape "
+              "and the accept/reject shape contract, and a vector of quantiles minimises every entry of mean_quantile_score; "
+              "np.nanmean / np.mean are modelled on NaN-able values and proved equal to the arithmetic mean on NaN-free data; mape and "
+              "bias are 0 for perfect predictions, |p| resp. p for a uniform p % offset, permutation and scale invariant. Tie: "
+              "translation, a structural tie of mean_quantile_score to nanmean(kernel), interval enclosures of the scalar and matrix "
+              "models around the implementation's floats, the shape model against the real accept/reject behaviour, and a numeric law "
+              "sweep on samples of 1..1e4 values (exhaustive / rank-neighbour minimiser search, off-sample constants against the "
+              "proved slope, unsorted tau vectors in every consistent shape; samples with NaN only for 'no exception, documented shapes')."),
+        note=COMMON_NOTE + " Translator trusted for the whitelisted subset (mitigated by enclosures); numpy reshape/broadcast/where hand-modelled and tied by enclosures; inf and a zero truth value are outside the real model; real-number axioms and funext in Print Assumptions.",
+        technique="Coq proof over R on kernels translated from the source on every run (lra/nra, induction over samples, sub-gradient argument for both directions of the quantile characterisation) + interval enclosures + numeric law sweep",
         design="5/C19"),
     "C20": dict(
         text=("Theorems (closed under the global context) in exact rational arithmetic, on the tile table TRANSLATED from "
@@ -271,18 +282,22 @@ CHECKS = {
         technique="Coq refinement proof (executable model = brute-force specification, induction over lists/bins, lia; certified output checker) + differential correspondence on generated call histories evaluated by vm_compute",
         design="5/C04"),
     "C14": dict(
-        text=("20 theorems over the reals about a hand model on lists built on kernels and the ISA table TRANSLATED from the source on "
-              "every run: integrate_column (trapz) equals the Riemann integral (Coquelicot RInt) of the piecewise-linear interpolant "
-              "over the whole range and segment by segment, is linear in y, additive at every grid point, sign-reversing, unit-spaced "
-              "by default and lane-wise on arrays of any rank (numpy's slice-wise algorithm); IWV >= 0 for both formulations; CRH = 1 "
-              "for the mixed-phase saturated profile (non-zero denominator discharged) and linear in q; pressure2height starts at 0, "
-              "is strictly increasing, and for an isothermal column lies within (RT/g) sum (r-1)^3/12 below (RT/g) ln(p0/p) "
-              "(layer_defect_bound for all r >= 1); the standard atmosphere is piecewise linear in height resp. ln p and both "
-              "addressings agree at the 8 tabulated levels. NOT proved (named gap): the convergence of the two IWV formulations under "
-              "grid refinement - checked numerically on four refinement levels. Tie: translation + interval enclosures proved in Coq "
-              "on grids of 2-50 levels (ranks 1-4, every axis) + an exact-rational law sweep up to 1e4 levels."),
-        note=COMMON_NOTE + " numpy reshape/trapezoid/diff/cumsum and scipy interp1d are hand-modelled and tied by the enclosures; IEEE rounding bridged pointwise; x given as an n-d array is not covered; real-number axioms, classic, funext in Print Assumptions.",
-        technique="Coq proof (lists over R, Coquelicot RInt, mean-value arguments, interval) on a hand model built on translated kernels + interval enclosures + exact-rational law sweep",
+        text=("29 theorems over the reals about a hand model on lists built on kernels and the ISA table TRANSLATED from the source on "
+              "every run; every clause of the statement is a theorem of the model: integrate_column (trapz) equals the Riemann integral "
+              "(Coquelicot RInt) of the piecewise-linear interpolant over the whole range and segment by segment, is linear in y, "
+              "additive at every grid point, sign-reversing, unit-spaced by default and lane-wise on arrays of any rank; IWV >= 0 for "
+              "both formulations; over z = pressure2height(p, T_v), the code's own hydrostatic height of the moist column (virtual "
+              "temperature), the general IWV form minus the hydrostatic form is EXACTLY the sum of the layer defects "
+              "dp/(2g)(q0-q1)(rho0-rho1)/(rho0+rho1), is bounded by the largest layer contrast (r-1)+0.61|dx|+|dT|/T times the "
+              "hydrostatic form (and to second order), and tends to 0 (Un_cv) on every sequence of grids whose pressure ratios tend to "
+              "1 for profiles Lipschitz in ln p - a counterexample shows that the pressure step alone does not suffice; CRH = 1 for "
+              "the mixed-phase saturated profile and linear in q; pressure2height starts at 0, is strictly increasing, and for an "
+              "isothermal column lies within (RT/g) sum (r-1)^3/12 below (RT/g) ln(p0/p); the standard atmosphere is piecewise "
+              "linear and both addressings agree at the 8 tabulated levels. Not stated: convergence of each IWV quadrature to the "
+              "continuum integral. Tie: translation + interval enclosures proved in Coq on grids of 2-50 levels (ranks 1-4, every "
+              "axis, the moist-column composite included) + an exact-rational law sweep up to 1e4 levels (layer identity to 1e-12)."),
+        note=COMMON_NOTE + " numpy reshape/trapezoid/diff/cumsum and scipy interp1d are hand-modelled and tied by the enclosures; IEEE rounding bridged pointwise; the harness forms T_v (typhon has no virtual-temperature function); x given as an n-d array is not covered; real-number axioms, classic, funext in Print Assumptions.",
+        technique="Coq proof (lists over R, Coquelicot RInt, mean-value arguments, exact layer identity + bounds + limit, interval) on a hand model built on translated kernels + interval enclosures + exact-rational law sweep",
         design="5/C14"),
     "C18": dict(
         text=("14 theorems about a list/real model of BMCI: window_sound - for S symmetric PSD with right inverse Sinv and a unit "
@@ -300,20 +315,23 @@ CHECKS = {
         design="5/C18"),
     "C07": dict(
         text=("coq/gen/geodesy.v (sind/cosd/tand, ellipsoid radii, cart2geocentric, geocentric2cart, geodetic2cart, "
-              "great_circle_distance, the ellipsoid table) is REGENERATED from typhon/geodesy.py on every run; 17 theorems over the "
+              "great_circle_distance, the ellipsoid table) is REGENERATED from typhon/geodesy.py on every run; 22 theorems over the "
               "reals for all ellipsoids with 0 < a, 0 <= e < 1 (the generated six-row table is proved admissible): spherical <-> "
               "cartesian mutually inverse (poles included); points on the ellipsoid have the radii given by ellipsoid_r_geodetic / "
-              "ellipsoid_r_geocentric and satisfy the ellipsoid equation; the true geodetic position is a fixed point of the loop "
-              "body of cart2geodetic and every fixed point maps back to (x,y,z) exactly, the loop stops at an iterate, the "
-              "spherical short cut is exact; geocentricposlos2cart / cartposlos2geocentric return zenith and azimuth; the distances "
-              "are symmetric, zero iff coincident, bounded, invariant under a common longitude shift, obey the triangle inequality "
-              "(chord and great-circle arc, the latter via the Gram determinant), and chord = 2R sin(arc/2R). NOT proved (named gap "
-              "iteration_accuracy): the contraction bound turning the 1e-12 rad stop criterion into < 1 cm / 1e-7 deg - that accuracy "
-              "rests on scalar-call sweeps over all models; the stop criterion is enclosed in Coq at every sampled output. Tie: "
-              "translation + interval enclosures (the hand model of the loop, tunnel and LOS code is tied by enclosures only) + a "
-              "numeric law sweep with longdouble oracles."),
-        note=COMMON_NOTE + " Translator trusted (mitigated by enclosures); numpy broadcasting and IEEE rounding bridged pointwise; cart2geocentric with optional arguments, the pole branch of geocentricposlos2cart and the za0/aa0 branch are outside the model (the property excludes the singular cases); real-number axioms, classic, funext in Print Assumptions.",
-        technique="Coq proof over R on definitions translated from the source on every run (trigonometric case analysis, field/nra/interval) + hand model of the cart2geodetic loop and LOS conversions + interval enclosures + numeric law sweep",
+              "ellipsoid_r_geocentric; the true geodetic position is a fixed point of the loop body of cart2geodetic and every fixed "
+              "point maps back to (x,y,z) exactly; the iteration is proved CONVERGENT - the loop body is Lipschitz with the explicit "
+              "constant e^2 a/(sqrt(1-e^2) D0) (mean value theorem, Coquelicot auto_derive), a contraction with q = 0.0126 on the "
+              "stated domain (3000 km <= a <= 70000 km, e <= 0.11 - proved for all six generated models -, -10 km <= h <= 1000 km, "
+              "|lat| <= 88 deg), any latitude meeting the stop criterion with tol <= 2e-12 rad is within 2e-10 deg and its height "
+              "within 5 mm of the true position, and the fuelled loop started at atan2(z,p) stops within 8 passes with that "
+              "accuracy; geocentricposlos2cart / cartposlos2geocentric return zenith and azimuth; the distances are symmetric, zero "
+              "iff coincident, bounded, invariant under a common longitude shift, obey the triangle inequality (chord and arc) and "
+              "chord = 2R sin(arc/2R). No theorem is partial. Tie: translation + interval enclosures (the hand model of the loop, "
+              "tunnel and LOS code is tied by enclosures, incl. the stop criterion at the returned latitude - the hypothesis of the "
+              "accuracy theorem - and by the observed number of passes of the real loop) + a numeric law sweep with longdouble "
+              "oracles incl. fixed high-latitude probes and the law that conversions leave the caller's arrays untouched."),
+        note=COMMON_NOTE + " Translator trusted (mitigated by enclosures); the loop / LOS model is hand-written, not translated; existence of a geodetic preimage for an arbitrary cartesian point is not proved (the theorems quantify over (h, lat, lon) as the property does); numpy broadcasting and IEEE rounding bridged pointwise; cart2geocentric with optional arguments, the pole branch of geocentricposlos2cart and the za0/aa0 branch are outside the model; real-number axioms, classic, funext in Print Assumptions.",
+        technique="Coq proof over R on definitions translated from the source on every run (trigonometric case analysis, field/nra/interval; Coquelicot auto_derive + mean value theorem for the contraction bound) + hand model of the cart2geodetic loop and LOS conversions + interval enclosures + pass counter on the real loop + numeric law sweep",
         design="5/C07"),
 }
 
